@@ -27,6 +27,12 @@ pub trait AdFrame: Frame + Debug + 'static {
     fn fpc(q: i64) -> Self::FF;
     /// Independent statement of clip_amp: signed amplitude limited to [-t, t].
     fn clip_ref(self, t: SignedOf<Self>) -> Self;
+    /// The frame operations restated channel by channel on the *sample* operations (what C03 says
+    /// they are), so that the reference does not share the frame-level code of the implementation.
+    fn add_ref(self, o: Self::SF) -> Self;
+    fn mul_ref(self, o: Self::FF) -> Self;
+    fn scale_ref(self, g: FloatOf<Self>) -> Self;
+    fn offset_ref(self, o: SignedOf<Self>) -> Self;
     fn reverse(self) -> Self;
     fn select(self, other: Self) -> Self;
     fn bits(&self) -> u64;
@@ -85,8 +91,21 @@ macro_rules! ad_frame {
             fn fpc(q: i64) -> Self::FF {
                 <Self::FF as Frame>::from_fn(|ch| fpc_val(q, ch).to_sample::<<$S as Sample>::Float>())
             }
+            fn add_ref(self, o: Self::SF) -> Self {
+                <$T as Frame>::from_fn(|ch| Sample::add_amp(*self.channel(ch).unwrap(), *o.channel(ch).unwrap()))
+            }
+            fn mul_ref(self, o: Self::FF) -> Self {
+                <$T as Frame>::from_fn(|ch| Sample::mul_amp(*self.channel(ch).unwrap(), *o.channel(ch).unwrap()))
+            }
+            fn scale_ref(self, g: <$S as Sample>::Float) -> Self {
+                <$T as Frame>::from_fn(|ch| Sample::mul_amp(*self.channel(ch).unwrap(), g))
+            }
+            fn offset_ref(self, o: <$S as Sample>::Signed) -> Self {
+                <$T as Frame>::from_fn(|ch| Sample::add_amp(*self.channel(ch).unwrap(), o))
+            }
             fn clip_ref(self, t: <$S as Sample>::Signed) -> Self {
-                Frame::map(self, |s: $S| {
+                <$T as Frame>::from_fn(|ch| {
+                    let s: $S = *self.channel(ch).unwrap();
                     let x: <$S as Sample>::Signed = s.to_sample();
                     let lo = -t;
                     let y = if x > t {
@@ -158,3 +177,6 @@ ad_frame!("[I24;2]", [I24; 2], I24);
 ad_frame!("[U48;2]", [U48; 2], U48);
 ad_frame!("[U24;3]", [U24; 3], U24);
 ad_frame!("[i8;4]", [i8; 4], i8);
+ad_frame!("[i32;12]", [i32; 12], i32);
+ad_frame!("[f32;9]", [f32; 9], f32);
+ad_frame!("[i16;12]", [i16; 12], i16);
